@@ -44,6 +44,79 @@ class Gen:
             return r.getrandbits(r.choice([16, 32, 47, 48, 64]))
         return r.choice([0x123456789ABC, 0x7FFFFFFFFFFF, 0xFFFF800000000000, 0x1000, 0xDEADBEEF0000])
 
+    def mem_target(self, arch, base):
+        r = self.rng
+        if arch == "x86":
+            return r.choice([0x1000, 0x7FFFFFF0, 0x80000000, 0xFFFFFFF0, r.getrandbits(32)])
+        c = r.random()
+        if c < 0.30:
+            return (base + r.randrange(-1 << 24, 1 << 24)) & M64                     # reachable RIP-relative
+        if c < 0.50:
+            return (base + r.choice([1, -1]) * ((1 << 31) + r.randrange(-96, 96))) & M64   # around the rel32 limit
+        if c < 0.75:
+            return r.choice([0x1000, 0x7FFFFFF0, 0x80000000, 0xFFFFFFF0, M64 - 0xFFF, (1 << 64) - (1 << 31), r.getrandbits(31), r.getrandbits(32)])
+        return self.target64(base)
+
+    def mem_op(self, arch, base):
+        """an instruction with an ABSOLUTE memory operand: with / without trailing imm8/imm16/imm32, rax forms (moffs), rel/abs hints"""
+        r = self.rng
+        t = self.mem_target(arch, base)
+        hint = r.choice([0, 0, 0, 1, 2]) if arch == "x64" else r.choice([0, 0, 0, 0, 2, 1])
+        nreg = 16 if arch == "x64" else 8
+        sizes = [1, 2, 4, 8] if arch == "x64" else [1, 2, 4]
+        c = r.random()
+        if c < 0.18:
+            return "R absload %d %d %d %d" % (r.choice([0, 0, r.randrange(nreg)]), r.choice(sizes), t, hint)
+        if c < 0.32:
+            return "R absstore %d %d %d %d" % (r.choice([0, 0, r.randrange(nreg)]), r.choice(sizes), t, hint)
+        if c < 0.42:
+            return "R abslea %d %d %d %d" % (r.randrange(nreg), r.choice([4, 8] if arch == "x64" else [4]), t, hint)
+        if c < 0.62:
+            size = r.choice(sizes)
+            return "R absmi %d %d %d %d" % (size, r.randrange(-(1 << (8 * min(size, 4) - 1)), 1 << (8 * min(size, 4) - 1)), t, hint)
+        if c < 0.74:
+            return "R absaddi8 %d %d %d %d" % (r.choice([2, 4, 8] if arch == "x64" else [2, 4]), r.randrange(-128, 128), t, hint)
+        if c < 0.88:
+            size = r.choice(sizes)
+            return "R abstesti %d %d %d %d" % (size, r.randrange(0, 1 << (8 * min(size, 4) - 1)), t, hint)
+        return "R absimuli %d %d %d %d" % (r.randrange(nreg), r.choice([r.randrange(-128, 128), r.randrange(-(1 << 31), 1 << 31)]), t, hint)
+
+    def pair_program(self, arch):
+        """the SAME body assembled with the base known at init (K) and without a base + relocate_to_base(base) afterwards (R)"""
+        r = self.rng
+        base = r.choice(BASES32 if arch == "x86" else BASES64)
+        if r.random() < 0.5:
+            base = (base + r.randrange(0, 1 << 16) * 16) & (0xFFFFFFFF if arch == "x86" else M64)
+        nlab = r.randrange(1, 4)
+        body = ["L"] * nlab + (["NS %d" % r.choice([1, 16])] if r.random() < 0.4 else [])
+        nsec = 1 + sum(1 for x in body if x.startswith("NS"))
+        pool = [self.target64(base) for _ in range(3)]
+        bound = set()
+        for _ in range(r.randrange(2, 24 if self.tier == "quick" else 40)):
+            c = r.random()
+            if c < 0.45:
+                body.append(self.mem_op(arch, base))
+            elif c < 0.65:
+                t = r.choice(pool) if arch == "x64" else r.getrandbits(32)
+                k = r.random()
+                body.append(("R calli %d" % t) if k < 0.45 else ("R jmpi %d" % t) if k < 0.85 else
+                            "R jcci %d %d" % (r.randrange(16), (base + r.randrange(0, 1 << 12)) & (M64 if arch == "x64" else 0xFFFFFFFF)))
+            elif c < 0.75:
+                body.append("EL %d %d" % (r.randrange(nlab), 4 if arch == "x86" else 8))
+            elif c < 0.83:
+                l = r.randrange(nlab)
+                if l not in bound:
+                    body.append("B %d" % l); bound.add(l)
+            else:
+                body.append("D %d %d" % (r.choice([1, 2, 3, 5, 8, 100]), r.getrandbits(24)))
+        for l in range(nlab):
+            if l not in bound:
+                if nsec > 1 and r.random() < 0.5:
+                    body.append("S 1")
+                body.append("B %d" % l)
+        tail = ["F", "EX", "RB %d" % base, "EX", "CF"]
+        return ["P %s %d" % (arch, base)] + body + tail, ["P %s" % arch] + body + tail
+
     def program(self, arch):
         r = self.rng
         known = r.random() < 0.2
@@ -62,7 +135,9 @@ class Gen:
             if c < 0.30:
                 if cur != 0 and known:
                     continue     # with a base known in advance absolute branches are assembled against .text only (offset 0)
-                if arch == "x64":
+                if arch != "a64" and r.random() < 0.35:
+                    L.append(self.mem_op(arch, base))
+                elif arch == "x64":
                     t = r.choice(pool) if r.random() < 0.7 else self.target64(base)
                     k = r.random()
                     if k < 0.45:
@@ -107,24 +182,95 @@ class Gen:
             for l in range(nlab):
                 if l not in bound:
                     L.append("B %d" % l)
-        for k in range(nsec):
-            L += ["S %d" % k, "D 4 %d" % r.getrandbits(24)]
+        if r.random() < 0.5:     # otherwise sections may stay empty (flatten no longer extends empty sections: C10 fix 695208d)
+            for k in range(nsec):
+                L += ["S %d" % k, "D 4 %d" % r.getrandbits(24)]
         L.append("F")
+        jit = arch == "x64" and r.random() < 0.12 and not known
+        if jit:
+            # JitRuntime::_add lays out again: a second flatten() moves an EMPTY section to the (aligned) end of its extended predecessor,
+            # so reach that fixpoint before dumping (labels bound in an empty section follow it)
+            L.append("F")
         L.append("EX")
-        if arch == "x64" and r.random() < 0.12 and not known:
+        if jit:
             L += ["JIT"]
         else:
             L += ["RB %d" % base, "EX", "CF"]
         return L
 
     def programs(self):
+        """-> (programs, pairs) where pairs = list of (index of the known-base variant, index of the relocate-afterwards variant)"""
         q = self.tier == "quick"
         out = []
         for arch, n in (("x64", 900 if q else 30000), ("x86", 350 if q else 10000), ("a64", 350 if q else 10000)):
             for _ in range(n):
                 out.append(self.program(arch))
         self.rng.shuffle(out)
-        return out
+        pairs = []
+        for arch, n in (("x64", 500 if q else 12000), ("x86", 150 if q else 4000)):
+            for _ in range(n):
+                k, rl = self.pair_program(arch)
+                pairs.append((len(out), len(out) + 1))
+                out += [k, rl]
+        return out, pairs
+
+
+# ------------------------------------------------------------------ x86 memory-operand decoder (Intel SDM vol. 2, independent of AsmJit)
+LEGACY_PREFIXES = (0x66, 0x67, 0xF2, 0xF3, 0x2E, 0x36, 0x3E, 0x26, 0x64, 0x65)
+
+
+def decode_abs_mem(raw, arch):
+    """Decodes one instruction whose memory operand has no base/index register. Returns dict(form, value, hole, vsize, has67, rexw, opcode)
+    form: 'rip' (x64 mod=00 rm=101), 'abs' (disp32 without base: x64 via SIB 25h, x86-32 mod=00 rm=101), 'moffs' (A0..A3), or None."""
+    i, has67, rexw = 0, False, False
+    while i < len(raw) and raw[i] in LEGACY_PREFIXES:
+        has67 |= raw[i] == 0x67
+        i += 1
+    if arch == "x64" and i < len(raw) and 0x40 <= raw[i] <= 0x4F:
+        rexw = bool(raw[i] & 8)
+        i += 1
+    if i >= len(raw):
+        return None
+    opcode = raw[i]
+    i += 1
+    if opcode == 0x0F:
+        if i >= len(raw):
+            return None
+        opcode = 0x0F00 | raw[i]
+        i += 1
+    if 0xA0 <= opcode <= 0xA3:
+        n = 4 if (arch == "x86" or has67) else 8
+        if i + n != len(raw):
+            return None
+        return {"form": "moffs", "value": int.from_bytes(raw[i:i + n], "little"), "hole": i, "vsize": n, "has67": has67, "rexw": rexw, "opcode": opcode}
+    if i >= len(raw):
+        return None
+    modrm = raw[i]
+    i += 1
+    if (modrm & 0xC7) == 0x05:
+        form = "rip" if arch == "x64" else "abs"
+    elif (modrm & 0xC7) == 0x04 and i < len(raw) and raw[i] == 0x25:
+        form = "abs"
+        i += 1
+    else:
+        return None
+    if i + 4 > len(raw):
+        return None
+    return {"form": form, "value": int.from_bytes(raw[i:i + 4], "little"), "hole": i, "vsize": 4, "has67": has67, "rexw": rexw, "opcode": opcode}
+
+
+def designated_address(dec, arch, end_address):
+    """the address the CPU forms for the decoded memory operand; `end_address` = absolute address of the next instruction"""
+    if dec["form"] == "rip":
+        return (end_address + sext(dec["value"], 32)) & M64
+    if dec["form"] == "moffs":
+        return dec["value"]
+    if arch == "x86" or dec["has67"]:
+        return dec["value"]                      # 32-bit effective address (zero-extended in 64-bit mode with 67h)
+    return sext(dec["value"], 32) & M64
+
+
+ABS_ADDR_ARG = {"absload": 4, "absstore": 4, "abslea": 4, "absmi": 4, "absaddi8": 4, "abstesti": 4, "absimuli": 4}
 
 
 # ------------------------------------------------------------------ trace bookkeeping
@@ -199,6 +345,9 @@ def track(prog, hout):
             if ins in ("calli", "jmpi", "jcci", "bi", "bli", "bcondi"):
                 s = Site(); s.kind = ins; s.sec = cur; s.off = before; s.length = n; s.target = int(t[-1]); s.line = inp
                 info["sites"].append(s)
+            elif ins in ABS_ADDR_ARG:
+                s = Site(); s.kind = "mem"; s.sec = cur; s.off = before; s.length = n; s.target = int(t[4]); s.disp = int(t[5]); s.line = inp
+                info["sites"].append(s)
             elif arch == "x86" and ins in ("movload", "lea", "movmi", "addmi8"):
                 imm = c03.mem_imm_size(t)
                 s = Site(); s.kind = "abs"; s.sec = cur; s.off = before + n - 4 - imm; s.size = 4; s.label = int(t[c03.X86_LABEL_ARG[ins]])
@@ -207,7 +356,10 @@ def track(prog, hout):
         elif tag == "R" and err != "ok":
             ins = t[1]
             justified = False
-            if info["known"] is not None and err == "invalid_disp" and ins in ("jcci", "bi", "bli", "bcondi"):
+            if ins in ABS_ADDR_ARG:
+                justified = abs_mem_error_justified(arch, t, err, info["known"], before)
+                info["refused"] = info.get("refused", 0) + 1
+            elif info["known"] is not None and err == "invalid_disp" and ins in ("jcci", "bi", "bli", "bcondi"):
                 # base known in advance: an unreachable conditional branch / a64 branch is refused at assembly time
                 tgt = int(t[-1])
                 if ins == "jcci":
@@ -222,6 +374,31 @@ def track(prog, hout):
         sizes[cur] = before + n
     info["labels"] = labels
     return info
+
+
+def abs_mem_error_justified(arch, t, err, known, before):
+    """an instruction with an absolute memory operand was refused when assembling: only right when no encoding designates the address"""
+    ins, addr, hint = t[1], int(t[4]), int(t[5])
+    if arch == "x86":
+        return hint == 1 and err == "invalid_addr"            # no relative addressing in 32-bit mode
+    abs32_ok = addr < (1 << 32) or addr >= (1 << 64) - (1 << 31)
+    moffs_ok = ins in ("absload", "absstore") and (int(t[2]) & 15) == 0 and hint != 1
+    unreachable = None
+    if known is not None:
+        d = sext(addr - (known + before), 64)
+        unreachable = not -(1 << 31) + 32 <= d < (1 << 31)    # the (unknown) length of the refused instruction is at most 15 bytes
+    if hint == 1:                                             # explicitly relative: refused only when the known base makes it unreachable
+        return bool(unreachable) and err == "invalid_addr"
+    if moffs_ok and not abs32_ok and hint == 0 and known is not None:
+        # x86_should_use_movabs decides with the size of the moffs form, EmitModSib re-checks with the size of the ModRM form: within a
+        # few bytes of the +-2^31 limit the instruction is refused although the moffs form exists (a refusal, never a wrong target)
+        d = sext(addr - (known + before), 64)
+        return abs(abs(d) - (1 << 31)) <= 32 and err == "invalid_addr64"
+    if abs32_ok or moffs_ok:
+        return False
+    if hint == 2:
+        return err == "invalid_addr64"
+    return bool(unreachable) and err in ("invalid_addr", "invalid_addr64")
 
 
 # ------------------------------------------------------------------ relocation problem for the model
@@ -272,6 +449,39 @@ def build_problem(info, base):
     return line, meta, at_sec, reserved, last, order
 
 
+def known_queries(info):
+    """base known at init: every relative field the assembler emitted at once (no relocation entry at that instruction) must be the
+    model's known_rel32.  Returns list of (model line, expected answer, description)."""
+    if info["known"] is None or info["pre"] is None or info["arch"] == "a64":
+        return []
+    d = info["pre"]
+    arch = info["arch"]
+    abits = 32 if arch == "x86" else 64
+    reloc_at = set((int(r[2]), int(r[3])) for r in d["rels"])
+    images = {k: c03.Image(v[0], v[1]) for k, v in d["raw_segs"].items()}
+    out = []
+    for s in info["sites"]:
+        if s.kind not in ("calli", "jmpi", "jcci", "mem") or (s.sec, s.off) in reloc_at or s.sec not in images:
+            continue
+        raw = images[s.sec].read(s.off, s.length)
+        if raw is None:
+            continue
+        if s.kind == "mem":
+            dec = decode_abs_mem(raw, arch)
+            if dec is None or dec["form"] != "rip":
+                continue
+            field = dec["value"]
+        else:
+            body = raw
+            if len(body) >= 5 and body[-5] in (0xE8, 0xE9) or (len(body) == 6 and body[0] == 0x0F):
+                field = int.from_bytes(body[-4:], "little")
+            else:
+                continue                                       # short form
+        nxt = d["offs"][s.sec] + s.off + s.length
+        out.append(("KNOWN %d %d %d %d" % (abits, info["known"], nxt, s.target), str(field), s.line))
+    return out
+
+
 def apply_model(info, answer, meta, at_sec):
     """applies the model's patches to the pre-relocation images; returns {sec: bytearray} (gaps as zeros)"""
     d = info["pre"]
@@ -309,10 +519,28 @@ def evaluate(info, image, base, stats):
     def rd(pos, n):
         return image[pos:pos + n] if 0 <= pos and pos + n <= len(image) else None
 
-    for s in info["sites"]:
+    designated = info.setdefault("designated", {})
+    for idx, s in enumerate(info["sites"]):
         pos = offs[s.sec] + s.off
         stats["sites"] += 1
         stats["kind:" + s.kind] = stats.get("kind:" + s.kind, 0) + 1
+        if s.kind == "mem":
+            raw = rd(pos, s.length)
+            dec = decode_abs_mem(raw, arch) if raw is not None else None
+            if dec is None:
+                probs.append(("C04/abs-mem-bytes/%s" % arch, "%s at %d:%d: bytes %s are not an instruction with an absolute memory operand"
+                              % (s.line, s.sec, s.off, None if raw is None else raw.hex())))
+                continue
+            got = designated_address(dec, arch, base + pos + s.length)
+            mask = 0xFFFFFFFF if (arch == "x86" or (dec["opcode"] == 0x8D and not dec["rexw"] and dec["form"] != "rip")) else M64
+            stats["mem:" + dec["form"]] = stats.get("mem:" + dec["form"], 0) + 1
+            designated[idx] = got & mask
+            if (got & mask) != (s.target & mask):
+                probs.append(("C04/abs-mem-target/%s" % arch, "%s at %d:%d: bytes %s at address %#x address %#x (%s form), the requested absolute address is %#x"
+                              % (s.line, s.sec, s.off, raw.hex(), base + pos, got, dec["form"], s.target)))
+            else:
+                stats["exact"] += 1
+            continue
         if s.kind == "abs":
             lab = labels[s.label]
             if lab is None:
@@ -394,6 +622,7 @@ def at_in_table(d, offs, slot):
 def expected_error(info, base):
     """independent decision: can every absolute reference be represented at this base?  Returns None or a reason."""
     arch = info["arch"]; offs = info["offs"]; labels = info["labels"]
+    reloc_at = set((int(r[2]), int(r[3])) for r in info["pre"]["rels"]) if info["pre"] else set()
     for s in info["sites"]:
         pos = offs[s.sec] + s.off
         if s.kind == "abs":
@@ -412,6 +641,10 @@ def expected_error(info, base):
             dlt = (offs[la[0]] + la[1]) - (offs[lb[0]] + lb[1])
             if not -(1 << (8 * s.size - 1)) <= dlt < (1 << (8 * s.size - 1)):
                 return "%s: delta %d does not fit" % (s.line, dlt)
+        elif s.kind == "mem" and arch == "x64" and (s.sec, s.off) in reloc_at:
+            dsp = sext(s.target - (base + pos + s.length), 64)
+            if not -(1 << 31) <= dsp < (1 << 31):
+                return "%s: absolute address out of RIP-relative range" % s.line
         elif s.kind == "jcci" and arch == "x64" and info["known"] is None:
             dsp = sext(s.target - (base + pos + s.length), 64)
             if not -(1 << 31) <= dsp < (1 << 31):
@@ -438,11 +671,12 @@ def check_programs(ck, impl, model, programs):
             problems_lines.append(["RELOC 0 8 0 0 0"]); continue
         line, meta, at_sec, reserved, last, order = build_problem(info, info["base"])
         info["problem"] = (line, meta, at_sec, reserved, last, order)
-        problems_lines.append([line])
+        info["known_q"] = known_queries(info)
+        problems_lines.append([line] + [q[0] for q in info["known_q"]])
     mouts = c03.run_sharded(model, problems_lines)
     results = []
     for prog, hout, info, mout in zip(programs, houts, infos, mouts):
-        res = {"prog": prog, "diffs": [], "problems": [], "hout": hout}
+        res = {"prog": prog, "diffs": [], "problems": [], "hout": hout, "info": info}
         results.append(res)
         if info is None:
             res["problems"].append(("C04/harness-crash", "the harness crashed or hung on this program")); continue
@@ -455,6 +689,10 @@ def check_programs(ck, impl, model, programs):
             stats["at_not_last"] += 1
         base = info["base"]
         answer = mout[0] if mout else "BAD"
+        for (q, want, what), got in zip(info.get("known_q", []), (mout or [])[1:]):
+            stats["known_fields"] = stats.get("known_fields", 0) + 1
+            if got != want:
+                res["diffs"].append("%s: field emitted with the base known at init is %s, model known_rel32 says %s (%s)" % (what, want, got, q))
         want_err = expected_error(info, base)
         if want_err:
             stats["errors_expected"] += 1
@@ -464,7 +702,8 @@ def check_programs(ck, impl, model, programs):
             if jerr != "ok":
                 # relocation at the real mmap address failed: the model must fail the same way at that... the address is unknown on failure;
                 # judge with the oracle only: an error needs an unrepresentable site at SOME address, which x86-64 programs here do not have
-                if not any(s.kind in ("jcci", "abs", "delta") for s in info["sites"]):
+                empty = all(v[0] == 0 for v in info["pre"]["secs"].values())      # nothing was assembled: kNoCodeGenerated is the right answer
+                if not empty and not any(s.kind in ("jcci", "abs", "delta", "mem") for s in info["sites"]):
                     res["problems"].append(("C04/jit-spurious-error", "JitRuntime::_add returned %s" % jerr))
                 continue
             if answer.startswith("OK"):
@@ -560,7 +799,7 @@ def run(ck):
         print("diffs:", results[0]["diffs"]); print("oracle:", results[0]["problems"])
         return 0
 
-    programs = Gen(rng, ck.tier).programs()
+    programs, pairs = Gen(rng, ck.tier).programs()
     # DESIGN 7.15 probe: address table followed by another section
     res, st = check_programs(ck, impl, model, [PROBE_715])
     fixed715 = not res[0]["problems"] and not res[0]["diffs"]
@@ -574,9 +813,26 @@ def run(ck):
     ck.log("programs: %d (%d operations)" % (len(programs), nlines))
     results, stats = check_programs(ck, impl, model, programs)
     ck.log("ran: %s" % stats)
+    # base known at init vs. base assigned at relocation: the same body must designate the same targets
+    npairs = 0
+    for (ik, ir) in pairs:
+        a, b = results[ik]["info"], results[ir]["info"]
+        if not a or not b or a.get("rb") is None or b.get("rb") is None or a["rb"][0] != "ok" or b["rb"][0] != "ok":
+            continue
+        if len(a["sites"]) != len(b["sites"]):
+            continue     # an instruction was refused in one variant only (reported error): nothing to compare
+        npairs += 1
+        da, db = a.get("designated", {}), b.get("designated", {})
+        for idx in sorted(set(da) & set(db)):
+            if da[idx] != db[idx]:
+                results[ik]["problems"].append(("C04/known-base-disagrees/%s" % a["arch"],
+                                                "%s designates %#x when assembled with base %#x known at init, %#x when relocated to that base afterwards "
+                                                "(requested %#x)" % (a["sites"][idx].line, da[idx], a["base"], db[idx], a["sites"][idx].target)))
+                break
+    stats["pairs_compared"] = npairs
     disagreements, nontrivial = 0, 0
     for res in results:
-        if any(l.startswith(("R calli", "R jmpi", "R jcci", "R bi", "R bli", "R bcondi", "EL", "ED", "R mov", "R lea")) for l in res["prog"]):
+        if any(l.startswith(("R calli", "R jmpi", "R jcci", "R bi", "R bli", "R bcondi", "EL", "ED", "R mov", "R lea", "R abs")) for l in res["prog"]):
             nontrivial += 1
         for (key, what) in res["problems"]:
             ck.violation(key, what, {"program": res["prog"], "arch": res["prog"][0].split()[1]})
@@ -593,8 +849,9 @@ def run(ck):
     return ck.finish(
         "proof",
         {"evaluations": nlines, "distinct_nontrivial": nontrivial,
-         "rule": "programs with absolute references (x86-64 call/jmp/jcc imm, x86-32 call/jmp/jcc imm and [label+disp], AArch64 b/bl/b.cond imm, embed_label, "
-                 "label-delta expressions) generated from VERIF_SEED, 1-4 sections, address table last or followed by a section, base assigned at relocation "
+         "rule": "programs with absolute references (x86-64 call/jmp/jcc imm, x86-32 call/jmp/jcc imm and [label+disp], x86 absolute memory operands [abs] "
+                 "with rel/abs hints, rax/moffs forms and trailing imm8/16/32, AArch64 b/bl/b.cond imm, embed_label, label-delta expressions) plus pairs of "
+                 "the same body assembled with the base known at init and relocated to that base afterwards, generated from VERIF_SEED, 1-4 sections, address table last or followed by a section, base assigned at relocation "
                  "(80 %) or known at init (20 %), bases straddling 2^31/2^32/2^47/2^63/2^64, targets around the rel32 / imm26 limits; 12 % of the x86-64 "
                  "programs go through JitRuntime::_add at the real mmap address; a program is non-trivial when it contains an absolute reference",
          "samples": samples, "programs": len(programs), "operations": nlines, "distribution": stats,
